@@ -99,6 +99,20 @@ def replay_place_{where}_{sn}_{vl}(s{hdr}):
     return replay_attr_place(s, {kl}, {vs}, {vl}, "{where}"{hdr})
 """)
     out.append('''
+def sepin_all(inner: int, open_kind: int, tok: int, ch: str) -> bool:
+    """
+    pre: 0 <= inner < 4 and 1 <= open_kind <= 2 and 0 <= tok < 3
+    pre: len(ch) == 1 and ch[0] in "a !|"
+    pre: tok != 2 or inner == 0
+    post: _
+    """
+    return sep_inside_step(inner, open_kind, tok, ch)
+
+
+def replay_sepin_all(inner, open_kind, tok, ch):
+    return replay_sep_inside(inner, open_kind, tok, ch)
+
+
 def nest_begline(o0: bool, o1: bool, o2: bool, o3: bool, o4: bool, o5: bool) -> bool:
     """
     post: _
@@ -284,6 +298,7 @@ def run(rep: C.Report) -> None:
             H,
             {
                 "^t_": dict(name="Ob2 table one-step lemmas (|-  |  !  ||  !!  |+  |})", functions=["parser.py:table_row_fn", "parser.py:table_cell_fn", "parser.py:table_hdr_cell_fn", "parser.py:double_vbar_fn", "parser.py:table_caption_fn", "parser.py:table_end_fn"], bounds="all table states with <= 2 closed cells of symbolic kind, optional open cell of symbolic kind with one symbolic content char, optional caption"),
+                "^sepin_": dict(name="Ob8 cell separators (!!, mid-line !, ||) inside an open HTML element / link / template / external link in a cell are text", functions=["parser.py:table_hdr_cell_fn", "parser.py:double_vbar_fn"], bounds="4 construct kinds x data/header cell x 3 tokens x one symbolic preceding character"),
                 "^nest_": dict(name="Ob7 beginning-of-line syntax stays disabled while any argument list is being re-parsed (nesting of the disable manager)", functions=["core.py:BegLineDisableManager"], bounds="all well-nested enter/exit sequences of length 6"),
                 "^vargs_": dict(name="Ob6 `|` inside a link / template / parameter reference / parser function closes the current argument (arguments accumulate in written order)", functions=["parser.py:vbar_fn"], bounds="4 node kinds x 0..2 earlier arguments x current argument text of 1..2 symbolic chars"),
                 "^place_": dict(name="Ob5 attributes written on a table, a row or a cell become that node's attribute map", functions=["parser.py:table_check_attrs", "parser.py:table_row_check_attrs", "parser.py:table_cell_fn (attribute separator)", "parser.py:check_for_attributes"], bounds="one attribute, name 1 char, value 1..2 (thorough 3) symbolic URL-safe chars, three quoting styles; data and header cells"),
